@@ -13,6 +13,7 @@ import Adlt.Remote.Drv
 import Adlt.Remote.IncrDrv
 import Adlt.Convert.Drv
 import Adlt.Safe.Drv
+import Adlt.Zip.Drv
 /-! `driver <area>`: reads `case \t implobs` lines on stdin, prints one result line each. -/
 def main (args : List String) : IO UInt32 := do
   let stdin ← IO.getStdin
@@ -35,4 +36,5 @@ def main (args : List String) : IO UInt32 := do
   | ["cvt"] => Util.loop stdin Cvt.doLine; return 0
   | ["c03"] => Util.loop stdin Safe.doLine; return 0
   | ["c03f"] => Util.loop stdin Safe.doLineF; return 0
+  | ["zip"] => Util.loop stdin Zipm.doLine; return 0
   | _ => IO.eprintln "usage: driver <area>"; return 2
